@@ -619,8 +619,22 @@ def check_defaults(ctx, env, d_idx, o_idx, vals):
                     % (name, v, tv[0], tv[1], d,
                        'removed' if removed else 'kept'), case)
                 return
-        else:
+        elif {type(v), type(d)} == {int, float}:
+            # 1 vs 1.0: whether these are "equal" is left open
             ctx.count('defaults_unspecified_mixed_types')
+        else:
+            # values of different YAML types (bool vs number, str vs
+            # anything, null vs anything) are never equal: dropping the
+            # attribute would bring back a value of another type on loading
+            ctx.count('defaults_mixed_types_judged')
+            if removed:
+                ctx.violation(
+                    'C14 remove_defaults removed-unequal value-type=%s '
+                    'default-type=%s' % (type(v).__name__, type(d).__name__),
+                    'attribute %s with value %r (%s %r) was removed although '
+                    'its default %r is of another type' % (
+                        name, v, tv[0], tv[1], d), case)
+                return
     ctx.case(case, True)
 
 
